@@ -3,3 +3,6 @@ import Thanos.Driver.Compact
 import Thanos.Model.Planner
 import Thanos.Lemmas.Planner
 import Thanos.Props.C30
+import Thanos.Model.CompactProto
+import Thanos.Lemmas.CompactProto
+import Thanos.Props.C34
